@@ -78,6 +78,22 @@ public:
         return trunc(t.getAsString(PP));
     }
 
+    // short name of a type: record / typedef / dependent member name without qualifiers and arguments
+    std::string shortType(QualType t) {
+        if (t.isNull()) return "";
+        t = t.getNonReferenceType();
+        while (t->isPointerType()) t = t->getPointeeType();
+        t = t.getUnqualifiedType();
+        const Type *tp = t.getTypePtr();
+        if (auto *et = dyn_cast<ElaboratedType>(tp)) { tp = et->getNamedType().getTypePtr(); }
+        if (auto *dn = dyn_cast<DependentNameType>(tp)) return dn->getIdentifier()->getName().str();
+        if (auto *td = dyn_cast<TypedefType>(tp)) return td->getDecl()->getNameAsString();
+        if (auto *ts = dyn_cast<TemplateSpecializationType>(tp)) { if (auto *d = ts->getTemplateName().getAsTemplateDecl()) return d->getNameAsString(); }
+        if (auto *rd = tp->getAsCXXRecordDecl()) return rd->getNameAsString();
+        if (auto *tt = dyn_cast<TemplateTypeParmType>(tp)) { if (tt->getIdentifier()) return tt->getIdentifier()->getName().str(); }
+        return "";
+    }
+
     static std::string nameOf(const NamedDecl *d) {
         if (!d) return "";
         if (d->getDeclName().isIdentifier()) return d->getName().str();
@@ -320,7 +336,7 @@ public:
             for (auto *d : e->decls()) {
                 if (auto *vd = dyn_cast<VarDecl>(d)) {
                     json::Object v;
-                    v["k"] = "VarDecl"; v["n"] = nameOf(vd); v["t"] = typeStr(vd->getType());
+                    v["k"] = "VarDecl"; v["n"] = nameOf(vd); v["t"] = typeStr(vd->getType()); v["tn"] = shortType(vd->getType());
                     v["l"] = (int64_t)lineOf(vd->getLocation());
                     if (vd->isStaticLocal()) v["static"] = 1;
                     json::Array vk;
@@ -458,7 +474,7 @@ public:
         o["ret"] = typeStr(fd->getReturnType());
         json::Array params;
         for (auto *p : fd->parameters()) {
-            json::Object jp; jp["n"] = nameOf(p); jp["t"] = typeStr(p->getType());
+            json::Object jp; jp["n"] = nameOf(p); jp["t"] = typeStr(p->getType()); jp["tn"] = shortType(p->getType());
             params.push_back(std::move(jp));
         }
         o["params"] = std::move(params);
@@ -521,7 +537,7 @@ public:
         }
         json::Array fields;
         for (auto *f : rd->fields()) {
-            json::Object jf; jf["n"] = nameOf(f); jf["t"] = typeStr(f->getType()); jf["l"] = (int64_t)lineOf(f->getLocation());
+            json::Object jf; jf["n"] = nameOf(f); jf["t"] = typeStr(f->getType()); jf["tn"] = shortType(f->getType()); jf["l"] = (int64_t)lineOf(f->getLocation());
             if (f->isMutable()) jf["mutable"] = 1;
             fields.push_back(std::move(jf));
         }
@@ -530,6 +546,7 @@ public:
         for (auto *d : rd->decls()) {
             if (auto *vd = dyn_cast<VarDecl>(d)) {
                 json::Object jf; jf["n"] = nameOf(vd); jf["t"] = typeStr(vd->getType()); jf["l"] = (int64_t)lineOf(vd->getLocation());
+                if (vd->getInit()) { std::string is; llvm::raw_string_ostream ios(is); vd->getInit()->printPretty(ios, nullptr, PP); jf["init"] = trunc(ios.str(), 200); }
                 if (vd->getInit() && !vd->getInit()->isValueDependent() && vd->getType()->isIntegralOrEnumerationType()) {
                     Expr::EvalResult r;
                     if (vd->getInit()->EvaluateAsInt(r, Ctx, Expr::SE_NoSideEffects)) jf["v"] = r.Val.getInt().getExtValue();
